@@ -76,6 +76,9 @@ def run(ctx: Ctx) -> None:
         ok = not bad and norm(kwarg(cfgs[0], "client_side")) == "False"
     ctx.check("C05.R7", f"{M2}:H2Protocol.__init__", "H2Configuration(client_side=False, normalisation and validation left on)", ok, f"h2 configuration changes {bad}", cfgs[0] if cfgs else h2i)
 
+    from . import c06
+
+    c06.run(Alias(ctx, "C05.R3", "HTTP/1: after an aborted response the connection is closed instead of recycled - recycling requires both h11 sides DONE (C06.R1)", only={"C06.R1"}))
     from . import c17
 
     c17.run(Alias(ctx, "C05.R8", "WSGI adapter: an application that raises does not get its response completed by the adapter (C17.R9), and its iterable is closed (C17.R3)", only={"C17.R9", "C17.R3"}))
